@@ -29,7 +29,11 @@ func verifStaking(u *verifU) (P, Q types.Pubkey, stakeA *big.Int) {
 	st.Candidates.Delegate(u.B, P, 0, own, own)
 	st.Candidates.Delegate(u.B, Q, 0, own, own)
 	stakeA = verifBigPos("stake.A.P")
-	if verifConfig("waitlisted") == 1 {
+	if verifConfig("waitlisted") == 2 {
+		// both: a live stake and a waitlist entry for the same candidate and coin
+		st.Candidates.Delegate(u.A, P, 0, stakeA, stakeA)
+		st.Waitlist.AddWaitList(u.A, P, 0, verifBigPos("waitlist.A.P"))
+	} else if verifConfig("waitlisted") == 1 {
 		st.Waitlist.AddWaitList(u.A, P, 0, stakeA)
 	} else {
 		st.Candidates.Delegate(u.A, P, 0, stakeA, stakeA)
@@ -66,6 +70,10 @@ func VerifHarness_Stake_Deliver() {
 	unbondAt := u.height + types.GetUnbondPeriod()
 	moveAt := u.height + types.GetMovePeriod()
 	balA := st.Accounts.GetBalance(u.A, 0)
+	wlA := big.NewInt(0)
+	if it := st.Waitlist.Get(u.A, P, 0); it != nil {
+		wlA = new(big.Int).Set(it.Value)
+	}
 	var tx *Transaction
 	var due uint64
 	switch kind {
@@ -163,7 +171,11 @@ func VerifHarness_Stake_Deliver() {
 		got, n, moveTo, _ := verifFrozenAt(u, unbondAt, u.A)
 		verifAssert("C16:unbonded-coins-frozen-for-exactly-the-unbond-period", n == 1 && got.Cmp(value) == 0 && moveTo == 0)
 		verifAssert("C16:unbond-does-not-credit-the-balance-now", st.Accounts.GetBalance(u.A, 0).Cmp(balA) <= 0)
-		verifAssert("C16:unbonded-at-most-the-holding", value.Cmp(stakeA) <= 0)
+		holding := new(big.Int).Set(stakeA)
+		if verifConfig("waitlisted") == 2 {
+			holding.Add(holding, wlA) // a live stake and a waitlist entry together
+		}
+		verifAssert("C16:unbonded-at-most-the-holding", value.Cmp(holding) <= 0)
 		early, n2, _, _ := verifFrozenAt(u, moveAt, u.A)
 		verifAssert("C16:nothing-frozen-elsewhere", n2 == 0 && early.Sign() == 0)
 	case 2:
